@@ -145,6 +145,12 @@ def build_variants(rng, isa, ktext, n_noise_variants):
     out = []
     pro = [l for l in G.segment(rng, isa, rng.randrange(1, 5))]
     epi = [l for l in G.segment(rng, isa, rng.randrange(1, 4))]
+    if rng.random() < 0.5:
+        # characters that str.splitlines() takes for line ends but that neither the assembler, an editor nor --lines count as such
+        # (GNU-style ^L page breaks in file headers): a line is what ends at "\n"
+        ch = rng.choice(["\x0c", "\x0c", "\x0b", "\x1c", "\x1d", "\x1e"])
+        # (inside a comment only on x86: the AArch64 comment grammar accepts printable characters only -- C10's stated assumption)
+        pro.insert(rng.randrange(len(pro) + 1), rng.choice([ch, "\t" + ch] + ([G.CMT[isa] + " page" + ch + "break"] if isa == "x86" else [])))
     # kernel-only file
     out.append(("kernel-only", "\n".join(ktext) + "\n", [], {i + 1: i for i in range(len(ktext))}))
     styles = ["comment", "one", "each", "many"]
